@@ -269,7 +269,14 @@ class CycleFixedPoint(_TB):
         yield 'canary:coarse_tau_is_zero', veq(st.G.tau[0], 0)
 
 
-CONTRACTS = [Restrict, Prolong, ProlongF, CycleFixedPoint]
+def _stage_order_contracts():
+    # down / coarse / up stage order and mid-level sweep counts (mechanism of C10) are the C07 stage contracts
+    from contracts.C07_block import ItDown, ItCoarse, ItUp
+
+    return [type(b.__name__ + '_C10', (b,), dict(prop='C10')) for b in (ItDown, ItCoarse, ItUp)]
+
+
+CONTRACTS = [Restrict, Prolong, ProlongF, CycleFixedPoint] + _stage_order_contracts()
 UNDECIDED = ['multigrid iteration-matrix clause (one multilevel iteration = multigrid-in-time matrix) is not machine-checked',
              'BaseTransfer_mass, BaseTransferMPI and three-level cycles are not under contract',
              'concrete space transfer classes (mesh_to_mesh, FFT) enter only through their linearity (C11)']
